@@ -222,7 +222,7 @@ pub fn check(s: &'static dyn Proto, c: &Case, st: &mut Stats, known: &KnownFindi
 
 pub const BUDGET: Budget = Budget {
     quick: (3, 3, 2),
-    thorough: (6, 6, 4),
+    thorough: (8, 8, 5),
     shrink: 4,
 };
 
